@@ -354,6 +354,13 @@ func (mbs *metadataPartStorage) GetObject(ctx context.Context, bucketName storag
 			return nil, err
 		}
 
+		if len(ranges) == 0 && object.Size == 0 {
+			// A whole-object read of an empty object is valid and yields an empty
+			// body; only an explicit byte range on it is unsatisfiable.
+			storageObject = convertObject(*object)
+			return []io.ReadCloser{io.NopCloser(bytes.NewReader(nil))}, nil
+		}
+
 		// The range readers are lazy: they don't touch the part store until
 		// first read. With tx-free streaming they carry no transaction at all
 		// and use the pre-transaction context.
